@@ -1,4 +1,5 @@
 import GqlVerif.Props.C20
+import GqlVerif.Proofs.C20Composed
 open GqlVerif.C20
 #print axioms header_spec
 #print axioms header_spec_str
@@ -12,3 +13,25 @@ open GqlVerif.C20
 #print axioms out_file_written
 #print axioms stdout_untouched
 #print axioms stdout_written
+-- the whole run composed: argv-level headers -> request -> reply -> file / stdout (Proofs/C20Composed.lean)
+#print axioms GqlVerif.C20C.isWhitespace_iff
+#print axioms GqlVerif.C20C.strip_iff_trim
+#print axioms GqlVerif.C20C.parseHeader_iff
+#print axioms GqlVerif.C20C.refused_iff
+#print axioms GqlVerif.C20C.parseHeaderArgs_ok_iff
+#print axioms GqlVerif.C20C.parseHeaderArgs_error_iff
+#print axioms GqlVerif.C20C.buildRequest_ok_iff
+#print axioms GqlVerif.C20C.buildRequest_error
+#print axioms GqlVerif.C20C.introspect_request_shape
+#print axioms GqlVerif.C20C.accepted_headers_request
+#print axioms GqlVerif.C20C.introspect_sends_iff
+#print axioms GqlVerif.C20C.refused_header_sends_nothing
+#print axioms GqlVerif.C20C.http_refused_sends_nothing
+#print axioms GqlVerif.C20C.no_request_no_effect
+#print axioms GqlVerif.C20C.main_failure_touches_nothing
+#print axioms GqlVerif.C20C.main_success_iff
+#print axioms GqlVerif.C20C.main_output_written
+#print axioms GqlVerif.C20C.output_file_reads_back
+-- the pretty printer is read back by an RFC 8259 reader as the same JSON
+#print axioms GqlVerif.JsonText.parse_prettyAt
+#print axioms GqlVerif.JsonText.pretty_parse_roundtrip
